@@ -189,7 +189,10 @@ class SymBuf:
 
     def __repr__(self): return '<SymBuf %s/%s len=%d>' % (self.kind, self.tc, len(self.items))
 
-    def __contains__(self, v): raise Unsupported('`in` on a symbolic buffer')
+    def __contains__(self, v):
+        if self.kind == 'array': return bool(core.bor(*[core.eq(x, v) for x in self.items])) if self.items else False
+        r = self.find(v)
+        return bool(r >= 0) if isinstance(r, SymInt) else r >= 0
 
     def startswith(self, p):
         p = _raw_items(p)
@@ -197,6 +200,84 @@ class SymBuf:
         return self[:len(p)]._eq(bytes(p) if all(isinstance(x, int) for x in p) else SymBuf(p))
 
     def __index__(self): raise TypeError('buffer is not an integer')
+
+    # ---- further bytes/bytearray methods (conformance-tested against CPython in vf.conformance)
+    def endswith(self, p):
+        p = _raw_items(p)
+        if len(p) > len(self.items): return False
+        if not p: return True
+        return self[len(self.items) - len(p):]._eq(bytes(p) if all(isinstance(x, int) for x in p) else SymBuf(p))
+
+    def _pad(self, width, fill, left):
+        if self.kind not in ('bytes', 'bytearray'): raise AttributeError('ljust/rjust')
+        w = core.pinned_value(width) if isinstance(width, SymInt) else width
+        f = _raw_items(fill)
+        if len(f) != 1: raise TypeError('fill character must be a single byte')
+        n = max(0, w - len(self.items))
+        return SymBuf(f * n + self.items if left else self.items + f * n, self.kind, 'B')
+
+    def ljust(self, width, fill=b' '): return self._pad(width, fill, False)
+    def rjust(self, width, fill=b' '): return self._pad(width, fill, True)
+
+    def copy(self):
+        if self.kind != 'bytearray': raise AttributeError('copy')
+        return SymBuf(self.items, self.kind, self.tc)
+
+    def pop(self, i=-1):
+        if not self.mutable: raise AttributeError('pop')
+        if not self.items: raise IndexError('pop from empty bytearray')
+        return self.items.pop(i)
+
+    def insert(self, i, v):
+        if not self.mutable: raise AttributeError('insert')
+        self.items.insert(i, self._chk(v))
+
+    def reverse(self):
+        if not self.mutable: raise AttributeError('reverse')
+        self.items.reverse()
+
+    def __delitem__(self, k):
+        if not self.mutable: raise TypeError('object does not support item deletion')
+        del self.items[k]
+
+    def _match_at(self, pat, i):
+        from .core import band, eq
+        return band(*[eq(a, b) for a, b in zip(self.raw()[i:i + len(pat)], pat)]) if pat else True
+
+    def find(self, sub, start=0, end=None):
+        """lowest index of `sub` (or -1) as an if-then-else chain over all offsets: no forking"""
+        if self.kind not in ('bytes', 'bytearray'): raise AttributeError('find')
+        pat = [sub] if isinstance(sub, (int, SymInt)) else _raw_items(sub)
+        n = len(self.items)
+        if end is None or end > n: end = n
+        elif end < 0: end = max(0, end + n)
+        if start is None: start = 0
+        elif start < 0: start = max(0, start + n)
+        if not pat: return start if start <= end else -1
+        res = -1
+        for i in range(end - len(pat), start - 1, -1):
+            res = ite(self._match_at(pat, i), i, res)
+        return res
+
+    def index(self, sub, *a):
+        r = self.find(sub, *a)
+        neg = (r < 0) if isinstance(r, SymInt) else (r < 0)
+        if neg: raise ValueError('subsection not found')
+        return r
+
+    def count(self, sub, *a):
+        pat = [sub] if isinstance(sub, (int, SymInt)) else _raw_items(sub)
+        if len(pat) != 1: raise Unsupported('count of a multi-byte pattern in a symbolic buffer')
+        start, end, _ = slice(*a).indices(len(self.items)) if a else (0, len(self.items), 1)
+        tot = 0
+        for i in range(start, end): tot = tot + ite(self._match_at(pat, i), 1, 0)
+        return tot
+
+    def __getattr__(self, name):
+        if name.startswith('__'): raise AttributeError(name)
+        if any(hasattr(t, name) for t in (bytes, bytearray, memoryview, _array.array)):
+            raise Unsupported('SymBuf.%s is not modelled' % name)       # inconclusive, never a bogus AttributeError
+        raise AttributeError(name)
 
 
 # --------------------------------------------------------------------------- strings (ropes of literals and decimal renderings)
@@ -654,6 +735,15 @@ def sym_call(f, *a, **k):
                     raise Unsupported('append of a symbolic item to a concrete bytearray (buffer must be a proxy)')
                 return getattr(pr, name)(*a, **k)
             raise Unsupported('str.%s with symbolic argument' % name)
+        if type(recv) is dict and (_any_sym(a, k) or any(isinstance(kk, SymKey) for kk in recv)):
+            name = f.__name__
+            if name == 'get': return dict_get(recv, *a)
+            if name == 'setdefault':
+                kk = _dict_find(recv, a[0])
+                if kk is not _MISSING: return dict.__getitem__(recv, kk)
+                dict_set(recv, a[0], a[1] if len(a) > 1 else None); return a[1] if len(a) > 1 else None
+            if name in ('pop', 'popitem', 'update', 'fromkeys', '__delitem__'):
+                raise Unsupported('dict.%s with symbolic keys' % name)
         if isinstance(recv, (list,)) or recv is None or isinstance(recv, types.ModuleType):
             return f(*a, **k)
         if _any_sym(a, k) and isinstance(recv, (int,)):
@@ -661,7 +751,61 @@ def sym_call(f, *a, **k):
     return f(*a, **k)
 
 
+class SymKey:
+    """a symbolic integer used as dictionary key: hashable by identity. On the path that stored it, it is
+    known to differ from every other key of that dictionary (the store forked on equality first)."""
+    __slots__ = ('v',)
+    def __init__(self, v): self.v = v
+    def __repr__(self): return 'SymKey(%r)' % (self.v,)
+
+
+_MISSING = object()
+
+
+def _dict_find(d, k):
+    """the key object of dictionary d that equals k on this path (forks on equality), or _MISSING"""
+    ksym = isinstance(k, SymInt) and k.conc() is None
+    if isinstance(k, SymInt) and not ksym: k = k.conc()
+    if not ksym:
+        try:
+            if dict.__contains__(d, k): return k
+        except TypeError:
+            raise Unsupported('unhashable dictionary key')
+    if not ksym and not isinstance(k, int): 
+        return _MISSING            # a non-integer key never equals a symbolic integer key
+    for kk in list(dict.keys(d)):
+        if isinstance(kk, SymKey):
+            c = core.eq(kk.v, k)
+        elif ksym and isinstance(kk, int) and not isinstance(kk, bool):
+            c = core.eq(k, kk)
+        else: continue
+        if c is True or (c is not False and bool(c)): return kk
+    return _MISSING
+
+
+def dict_get(d, k, default=None):
+    kk = _dict_find(d, k)
+    return default if kk is _MISSING else dict.__getitem__(d, kk)
+
+
+def dict_set(d, k, v):
+    kk = _dict_find(d, k)
+    if kk is _MISSING:
+        kk = SymKey(k) if (isinstance(k, SymInt) and k.conc() is None) else (k.conc() if isinstance(k, SymInt) else k)
+    dict.__setitem__(d, kk, v)
+
+
+def sym_setitem(o, i, v):
+    if type(o) is dict and (isinstance(i, SymInt) or any(isinstance(kk, SymKey) for kk in o)):
+        return dict_set(o, i, v)
+    o[i] = v
+
+
 def sym_getitem(o, i):
+    if type(o) is dict and (isinstance(i, SymInt) or any(isinstance(kk, SymKey) for kk in o)):
+        kk = _dict_find(o, i)
+        if kk is _MISSING: raise KeyError(i)
+        return dict.__getitem__(o, kk)
     if isinstance(i, SymInt):
         c = i.conc()
         if c is not None: return o[c]
@@ -727,6 +871,23 @@ class _Tx(ast.NodeTransformer):
             return ast.copy_location(ast.Call(ast.Name('__sym_getitem__', ast.Load()), [n.value, n.slice], []), n)
         return n
 
+    def visit_Assign(self, n):
+        # d[k] = v  (subscript target, no slice)  ->  __sym_setitem__(d, k, v); chained targets go through a temporary
+        def is_sub(t): return isinstance(t, ast.Subscript) and not isinstance(t.slice, ast.Slice)
+        if not any(is_sub(t) for t in n.targets):
+            self.generic_visit(n); return n
+        val = self.visit(n.value)
+        def store(t, v):
+            if is_sub(t):
+                return ast.Expr(ast.Call(ast.Name('__sym_setitem__', ast.Load()), [self.visit(t.value), self.visit(t.slice), v], []))
+            return ast.Assign([self.visit(t)], v)
+        if len(n.targets) == 1:
+            return ast.copy_location(store(n.targets[0], val), n)
+        tmp = '__sym_tmp%d' % n.lineno
+        out = [ast.Assign([ast.Name(tmp, ast.Store())], val)]
+        for t in n.targets: out.append(store(t, ast.Name(tmp, ast.Load())))
+        return [ast.copy_location(x, n) for x in out]
+
     def visit_Compare(self, n):
         self.generic_visit(n)
         if len(n.ops) == 1 and isinstance(n.ops[0], (ast.In, ast.NotIn)):
@@ -747,6 +908,8 @@ class _Tx(ast.NodeTransformer):
 
 def sym_in(x, c):
     """x in c  as ONE condition (instead of one fork per element)"""
+    if type(c) is dict and (isinstance(x, SymInt) or any(isinstance(kk, SymKey) for kk in c)):
+        return _dict_find(c, x) is not _MISSING
     if isinstance(x, (SymInt, SymBool)):
         x = lift(x)
         if isinstance(c, range):
@@ -792,7 +955,7 @@ class _Finder(importlib.abc.MetaPathFinder, importlib.abc.Loader):
         mod.__file__ = p
         src = open(p).read()
         if self.instrument:
-            mod.__dict__.update(__sym_call__=sym_call, __sym_getitem__=sym_getitem, __sym_fmt__=sym_fmt, __sym_in__=sym_in, __sym_not__=sym_not, __sym_mod__=sym_mod)
+            mod.__dict__.update(__sym_call__=sym_call, __sym_getitem__=sym_getitem, __sym_setitem__=sym_setitem, __sym_fmt__=sym_fmt, __sym_in__=sym_in, __sym_not__=sym_not, __sym_mod__=sym_mod)
             code = instrument_source(src, p)
         else:
             code = compile(src, p, 'exec')
